@@ -16,6 +16,7 @@ import (
 	"os"
 	"os/exec"
 	"path/filepath"
+	"regexp"
 	"runtime"
 	"runtime/debug"
 	"sort"
@@ -24,11 +25,13 @@ import (
 	"testing"
 	"time"
 
+	"github.com/nspcc-dev/neo-go/pkg/config/netmode"
 	"github.com/nspcc-dev/neo-go/pkg/core/block"
 	"github.com/nspcc-dev/neo-go/pkg/core/state"
 	"github.com/nspcc-dev/neo-go/pkg/core/transaction"
 	"github.com/nspcc-dev/neo-go/pkg/io"
 	"github.com/nspcc-dev/neo-go/pkg/network"
+	"github.com/nspcc-dev/neo-go/pkg/network/capability"
 	"github.com/nspcc-dev/neo-go/pkg/network/payload"
 	"github.com/nspcc-dev/neo-go/pkg/util"
 	"github.com/nspcc-dev/neo-go/pkg/vm/stackitem"
@@ -39,6 +42,7 @@ import (
 type pathCase struct {
 	Kind    string   `json:"kind"`
 	Origin  string   `json:"origin"`
+	Ev      int      `json:"ev"`
 	Path    []string `json:"path"`
 	Refused bool     `json:"refused"`
 	HashOK  bool     `json:"hashok"`
@@ -72,6 +76,7 @@ func observe(k *kindT, v any) (o obsT) {
 			o.err = fmt.Sprintf("panic while observing: %v", r)
 		}
 	}()
+	o.cont = contentOf(v) // before anything is asked of the object: asking must not change it (see the "encode" hop)
 	o.hash = k.hash(v)
 	o.sizes = k.sizes(v)
 	b, err := k.enc(v)
@@ -80,7 +85,6 @@ func observe(k *kindT, v any) (o obsT) {
 		return
 	}
 	o.bytes = bytes.Clone(b)
-	o.cont = contentOf(v)
 	return
 }
 
@@ -129,21 +133,22 @@ func (d *driver) noteDrift(key string, detail any) {
 	}
 }
 
-func hopClass(v *valueT, o obsT) string {
-	c := v.origin
-	if n := len(o.bytes); v.kind == "tx" || v.kind == "extensible" || v.kind == "block" {
-		if n > network.CompressionMinSize-64 && n <= network.CompressionMinSize+64 {
-			c += " near-compression-threshold"
-		}
+func hopClass(v *valueT, _ obsT) string {
+	if v.kind == "aer" && strings.Contains(v.cls, "invocations") {
+		return v.origin + " with invocations"
 	}
-	return c
+	return v.origin
 }
 
 // runPaths realises every enumerated path on every value of its kind and origin form.
 func (d *driver) runPaths(cases []pathCase, vals []*valueT, longFrom int) {
 	byKO := map[string][]pathCase{}
 	for _, c := range cases {
-		byKO[c.Kind+"/"+c.Origin] = append(byKO[c.Kind+"/"+c.Origin], c)
+		inv := ""
+		if c.Ev > 0 {
+			inv = "/inv"
+		}
+		byKO[c.Kind+"/"+c.Origin+inv] = append(byKO[c.Kind+"/"+c.Origin+inv], c)
 	}
 	for _, cs := range byKO {
 		sort.SliceStable(cs, func(i, j int) bool { return len(cs[i].Path) < len(cs[j].Path) })
@@ -155,6 +160,9 @@ func (d *driver) runPaths(cases []pathCase, vals []*valueT, longFrom int) {
 	for vi, v := range vals {
 		k := d.ks[v.kind]
 		cs := byKO[v.kind+"/"+v.origin]
+		if v.kind == "aer" && strings.Contains(v.cls, "invocations") {
+			cs = byKO[v.kind+"/"+v.origin+"/inv"]
+		}
 		if len(cs) == 0 {
 			continue
 		}
@@ -165,11 +173,39 @@ func (d *driver) runPaths(cases []pathCase, vals []*valueT, longFrom int) {
 		origin := observe(k, o0)
 		// hop 0: the arrival itself is judged (hash by definition, size against the canonical bytes)
 		d.emitHop(v, nil, "arrive", "", origin, origin, origin, "", false)
+		// encoding an object (binary, JSON) and asking for its hash / size must leave the object as it was
+		for _, form := range []string{"encode", "jsonencode"} {
+			if form == "jsonencode" && k.jenc == nil {
+				continue
+			}
+			o1, err := v.fresh()
+			if err != nil {
+				d.t.Fatalf("fresh: %v", err)
+			}
+			st, err := stage(func() error {
+				var err error
+				if form == "encode" {
+					_, err = k.enc(o1)
+				} else {
+					_, err = k.jenc(o1)
+				}
+				return err
+			})
+			after := origin
+			after.cont = contentOf(o1)
+			after.sizes = nil // the sizes were judged at the arrival
+			errs := ""
+			if err != nil {
+				errs = err.Error()
+			}
+			d.emitHop(v, nil, form, errs, origin, origin, after, "", st == "panic")
+			d.res.Count([]any{"enc", v.kind, vi, form})
+		}
 		seen := map[string]memo{}    // observation after a path (determinism of re-executed prefixes)
 		blocked := map[string]bool{} // prefixes that ended in a refusal: reported once, not extended
 		reps := map[string]obsT{}    // first object that arrived through a given last transport
 		for _, c := range cs {
-			if len(c.Path) >= longFrom && !v.deep {
+			if len(c.Path) >= 2 && !v.deep || len(c.Path) >= longFrom && !v.deeper || len(c.Path) > longFrom && !v.deepest {
 				continue
 			}
 			key := strings.Join(c.Path, ">")
@@ -265,7 +301,7 @@ func (d *driver) emitHop(v *valueT, path []string, tr, errs string, origin, befo
 	}
 	e["mh"], e["mb"], e["meq"] = e["ha"], e["ba"], true
 	pendingHop = e
-	if tr == "arrive" {
+	if len(path) == 0 {
 		d.flushHop()
 	}
 }
@@ -306,7 +342,7 @@ func (d *driver) shapeLaws(space, kind, cls, sig string, legal bool, v any, raw 
 	k := d.ks[kind]
 	e := map[string]any{"event": "shape", "space": space, "kind": kind, "cls": cls, "sig": sig, "legal": legal,
 		"benc": "na", "bdec": "na", "bsame": false, "bsize": false, "jenc": "na", "jdec": "na", "jsame": false,
-		"xdec": "na", "xsame": false, "idec": "na", "isame": false, "note": ""}
+		"xdec": "na", "xsame": false, "idec": "na", "isame": false, "jbin": "na", "note": ""}
 	var b0 []byte
 	notes := []string{}
 	note := func(where string, err error) {
@@ -344,7 +380,7 @@ func (d *driver) shapeLaws(space, kind, cls, sig string, legal bool, v any, raw 
 	}
 	var j0 []byte
 	if k.jenc != nil {
-		if v != nil {
+		if v != nil && e["benc"] == "ok" { // a constructed object the binary encoder refuses is not a value at all
 			e["jenc"], err = stage(func() error { b, err := k.jenc(v); j0 = b; return err })
 			note("JSON encode", err)
 		} else if jsonText != "" {
@@ -364,10 +400,18 @@ func (d *driver) shapeLaws(space, kind, cls, sig string, legal bool, v any, raw 
 					if err != nil {
 						return err
 					}
-					if v != nil && !bytes.Equal(j1, j0) {
+					if v != nil && e["bdec"] == "ok" && !bytes.Equal(j1, j0) {
 						return fmt.Errorf("JSON form changes: %.200s -> %.200s", j0, j1)
 					}
-					if e["benc"] == "ok" {
+					v3, err := k.jdec(j1, like)
+					if err != nil {
+						return fmt.Errorf("re-encoded JSON form refused: %w", err)
+					}
+					j2, err := k.jenc(v3)
+					if err != nil || !bytes.Equal(j2, j1) {
+						return fmt.Errorf("JSON form is not a fixpoint")
+					}
+					if e["bdec"] == "ok" {
 						b2, err := k.enc(v2)
 						if err != nil {
 							return fmt.Errorf("value accepted from JSON cannot be encoded: %w", err)
@@ -382,6 +426,27 @@ func (d *driver) shapeLaws(space, kind, cls, sig string, legal bool, v any, raw 
 				e["jsame"] = st == "ok"
 				if st == "panic" {
 					e["jdec"] = "panic"
+				}
+				// the value the JSON decoder accepted, in the binary form
+				e["jbin"], err = stage(func() error {
+					b2, err := k.enc(v2)
+					if err != nil {
+						return fmt.Errorf("encode: %w", err)
+					}
+					b2 = bytes.Clone(b2)
+					v4, err := arrive(kind, b2, srih)()
+					if err != nil {
+						return fmt.Errorf("decode: %w", err)
+					}
+					b4, err := k.enc(v4)
+					if err != nil || !bytes.Equal(b4, b2) {
+						return fmt.Errorf("binary form changes the value")
+					}
+					return nil
+				})
+				note("JSON-accepted value in binary", err)
+				if e["jbin"] == "err" { // the class of this finding is the ground of the refusal
+					e["sig"] = reasonClass(err.Error())
 				}
 			}
 		}
@@ -414,12 +479,17 @@ func (d *driver) shapeLaws(space, kind, cls, sig string, legal bool, v any, raw 
 		var v5 any
 		e["idec"], err = stage(func() error { var err error; v5, err = f(v, ""); return err })
 		note("item form", err)
-		if e["idec"] == "ok" && e["benc"] == "ok" {
+		if e["idec"] == "ok" && e["bdec"] == "ok" {
 			o := observe(k, v5)
 			e["isame"] = bytes.Equal(o.bytes, b0)
 		}
 	}
 	e["note"] = strings.Join(notes, "; ")
+	for _, st := range []string{"benc", "bdec", "jenc", "jdec", "xdec", "idec", "jbin"} {
+		if e[st] == "panic" { // the class of a panic is what panicked
+			e["sig"] = mutClass("", jobResult{Out: "panic", Note: e["note"].(string)})
+		}
+	}
 	if len(e["note"].(string)) > 400 {
 		e["note"] = e["note"].(string)[:400]
 	}
@@ -458,6 +528,11 @@ func signerSig(s signerShape) string {
 }
 
 func attrSig(a attrShape, legal bool) string {
+	for _, n := range a.Attrs {
+		if n == "Reserved" && legal {
+			return "Reserved attribute"
+		}
+	}
 	if legal {
 		if len(a.Attrs) == 1 {
 			return "single " + a.Attrs[0]
@@ -543,7 +618,9 @@ func (d *driver) runShapes(cases []shapeCase) (txVals, ruleVals, signerVals, ite
 			if _, err := stage(func() error { _, err := stackitem.Serialize(it); return err }); err == nil {
 				strict = true
 			}
-			d.shapeLaws("item", "aer", s.class(), sig, c.Legal, aerWith(it, strict, nth["item"]%2 == 0), nil, "", false)
+			if _, err := d.ks["item"].enc(&itemObj{it}); err == nil { // an item no serialiser takes is stored as the invalid-item marker
+				d.shapeLaws("item", "aer", s.class(), sig, c.Legal, aerWith(it, strict, nth["item"]%2 == 0), nil, "", false)
+			}
 			if s.T != "Special" || strings.HasPrefix(s.Name, "map-mixed") || s.Name == "all-kinds" || s.Name == "shared" || s.Name == "struct-in-map-in-array" {
 				if nth["item"]%7 == 0 || s.T == "Special" {
 					shape := s
@@ -576,6 +653,42 @@ func (d *driver) runShapes(cases []shapeCase) (txVals, ruleVals, signerVals, ite
 	return
 }
 
+// selectDepth chooses, per kind, the values that take part in paths of two transports (deep) and in the longest paths
+// (deeper): distinct value classes first, in seeded order.
+func selectDepth(vals []*valueT, r *rand.Rand, n2, n3, n4 int) {
+	byKind := map[string][]*valueT{}
+	var kinds []string
+	for _, v := range vals {
+		v.deep, v.deeper, v.deepest = false, false, false
+		if byKind[v.kind] == nil {
+			kinds = append(kinds, v.kind)
+		}
+		byKind[v.kind] = append(byKind[v.kind], v)
+	}
+	sort.Strings(kinds)
+	for _, k := range kinds {
+		vs := byKind[k]
+		r.Shuffle(len(vs), func(i, j int) { vs[i], vs[j] = vs[j], vs[i] })
+		seen := map[string]bool{}
+		var first, rest []*valueT
+		for _, v := range vs {
+			if !seen[v.src+v.cls] {
+				seen[v.src+v.cls] = true
+				first = append(first, v)
+			} else {
+				rest = append(rest, v)
+			}
+		}
+		// hand-made values (size classes, consensus messages) always go deep
+		sort.SliceStable(first, func(i, j int) bool { return first[i].src == "hand" && first[j].src != "hand" })
+		for i, v := range append(first, rest...) {
+			v.deep = i < n2 || v.src == "hand"
+			v.deeper = i < n3
+			v.deepest = i < n4
+		}
+	}
+}
+
 func must(err error) {
 	if err != nil {
 		panic(err)
@@ -605,7 +718,8 @@ type jobResult struct {
 	Note    string `json:"note"`
 }
 
-// lawOn decodes one input and evaluates the decode law on it.
+// lawOn decodes one input and evaluates the decode law on it.  Nothing the code under test does escapes: a panic in
+// any later stage (observing the decoded value, re-encoding it) is the outcome "panic" of the decoded value.
 func lawOn(f *formatT, in []byte) (r jobResult) {
 	r.Reenc, r.Redec, r.ToBin = "na", "na", "na"
 	var v any
@@ -616,13 +730,30 @@ func lawOn(f *formatT, in []byte) (r jobResult) {
 		return
 	}
 	r.Out = "value"
-	var b1 []byte
-	r.Reenc, err = stage(func() error { var err error; b1, err = f.encode(v); b1 = bytes.Clone(b1); return err })
+	canon := f.canon
+	if canon == nil {
+		canon = f.encode
+	}
+	var b1, c1 []byte
+	var id1 string
+	r.Reenc, err = stage(func() error {
+		var err error
+		id1 = f.ident(v)
+		if b1, err = f.encode(v); err != nil {
+			return err
+		}
+		b1 = bytes.Clone(b1)
+		c1, err = canon(v)
+		c1 = bytes.Clone(c1)
+		return err
+	})
 	if r.Reenc != "ok" {
-		r.Note = "re-encoding: " + err.Error()
+		r.Note = "re-encoding the decoded value: " + err.Error()
+		if r.Reenc == "panic" {
+			r.Out = "panic"
+		}
 		return
 	}
-	id1 := f.ident(v)
 	var v2 any
 	r.Redec, err = stage(func() error { var err error; v2, err = f.decode(b1); return err })
 	if r.Redec != "ok" {
@@ -630,14 +761,15 @@ func lawOn(f *formatT, in []byte) (r jobResult) {
 		return
 	}
 	st, err = stage(func() error {
-		b2, err := f.encode(v2)
+		c2, err := canon(v2)
 		if err != nil {
 			return err
 		}
-		r.Fix = bytes.Equal(b2, b1)
-		r.IdentEq = f.ident(v2) == id1
+		r.Fix = bytes.Equal(c2, c1)
+		id2 := f.ident(v2)
+		r.IdentEq = id2 == id1
 		if !r.IdentEq {
-			r.Note = fmt.Sprintf("%s -> %s", id1, f.ident(v2))
+			r.Note = fmt.Sprintf("%s -> %s", id1, id2)
 		}
 		return nil
 	})
@@ -655,7 +787,7 @@ func lawOn(f *formatT, in []byte) (r jobResult) {
 }
 
 const (
-	callTimeout = 8 * time.Second
+	callTimeout = 5 * time.Second
 	heapGuard   = 3 << 30
 )
 
@@ -1054,10 +1186,11 @@ func TestDriver(t *testing.T) {
 		}
 	}
 	res.Stats["wall_chains_s"] = int(time.Since(t0).Seconds())
+	selectDepth(vals, vh.Rand(29), vh.EnvInt("VERIF_C17_DEEP", 30), vh.EnvInt("VERIF_C17_DEEPER", 6), vh.EnvInt("VERIF_C17_DEEPEST", 2))
 	// non-canonical arrivals of the same contents
 	var nc []*valueT
 	for _, v := range vals {
-		if !v.deep || v.origin != "canon" {
+		if !v.deeper || v.origin != "canon" {
 			continue
 		}
 		var tracef func([]byte) ([]field, error)
@@ -1087,6 +1220,10 @@ func TestDriver(t *testing.T) {
 			continue
 		}
 		nc = append(nc, nonCanonical(d.ks, v, tracef, signed, srih, 2)...)
+	}
+	for i, v := range nc { // the first few take part in the longest paths too
+		v.deeper = i%4 == 0 && i < 48
+		v.deepest = i%8 == 0 && i < 48
 	}
 	res.Stats["noncanonical_values"] = len(nc)
 	vals = append(vals, nc...)
@@ -1121,14 +1258,22 @@ func (d *driver) runMutations(muts []mutCase, vals []*valueT) {
 	js := d.jsonSamples(vals, nsamp)
 	bf := binaryFormats(d.ks)
 	// hand-made samples of message kinds that carry no chain object
+	caps := capability.Capabilities{{Type: capability.TCPServer, Data: &capability.Server{Port: 20333}},
+		{Type: capability.FullNode, Data: &capability.Node{StartHeight: 12}}}
+	hdr := carrierHeader(false)
 	extra := map[string]payload.Payload{
 		"message-ping":            payload.NewPing(5, 77),
 		"message-getblocks":       payload.NewGetBlocks(util.Uint256{1}, 10),
 		"message-getblockbyindex": payload.NewGetBlockByIndex(3, 10),
-		"message-addr":            &payload.AddressList{Addrs: []*payload.AddressAndTime{}},
+		"message-addr": &payload.AddressList{Addrs: []*payload.AddressAndTime{
+			{Timestamp: 1700000000, IP: [16]byte{0, 0, 0, 0, 0, 0, 0, 0, 0, 0, 0xff, 0xff, 10, 0, 0, 1}, Capabilities: caps},
+			{Timestamp: 1700000001, IP: [16]byte{0x20, 1}, Capabilities: caps[:1]}}},
+		"message-version":     payload.NewVersion(netmode.UnitTestNet, 77, "/NEO-GO:test/", caps),
+		"message-merkleblock": &payload.MerkleBlock{Header: &hdr, TxCount: 2, Hashes: []util.Uint256{{1}, {2}}, Flags: []byte{1}},
 	}
 	cmds := map[string]network.CommandType{"message-ping": network.CMDPing, "message-getblocks": network.CMDGetBlocks,
-		"message-getblockbyindex": network.CMDGetBlockByIndex, "message-addr": network.CMDAddr}
+		"message-getblockbyindex": network.CMDGetBlockByIndex, "message-addr": network.CMDAddr, "message-version": network.CMDVersion,
+		"message-merkleblock": network.CMDMerkleBlock}
 	for n, p := range extra {
 		if raw, err := network.NewMessage(cmds[n], p).BytesCompressed(false); err == nil {
 			bs[n] = append(bs[n], sampleT{raw: raw, cls: "hand"})
@@ -1172,8 +1317,33 @@ func (d *driver) runMutations(muts []mutCase, vals []*valueT) {
 	meta := map[int]map[string]any{}
 	seen := map[string]bool{}
 	nofmt := map[string]bool{}
+	var all []mutCase
+	var lists struct{ Binary, JSON []string }
 	for _, c := range muts {
-		isJSON := c.Anchor == "head" && isJSONOp(c.Op)
+		if c.Fmts == "list" {
+			lists.Binary, lists.JSON = c.Binary, c.JSON
+		}
+	}
+	if len(lists.Binary) == 0 || len(lists.JSON) == 0 {
+		d.t.Fatalf("the list of formats is missing from the mutation cases")
+	}
+	sort.Strings(lists.Binary)
+	sort.Strings(lists.JSON)
+	for _, c := range muts {
+		fl := lists.Binary
+		if c.Fmts == "json" {
+			fl = lists.JSON
+		} else if c.Fmts != "binary" {
+			continue
+		}
+		for _, f := range fl {
+			x := c
+			x.Fmt = f
+			all = append(all, x)
+		}
+	}
+	for _, c := range all {
+		isJSON := c.Fmts == "json"
 		var ss []sampleT
 		if isJSON {
 			ss = js[c.Fmt]
@@ -1185,6 +1355,9 @@ func (d *driver) runMutations(muts []mutCase, vals []*valueT) {
 			continue
 		}
 		for si, s := range ss {
+			if si > 0 && (c.Op == "cnt-16m" || c.Op == "cnt-16m1" || c.Op == "cnt-2g" || c.Op == "cnt-max" || c.Op == "cnt-64k1") {
+				continue // the expensive count classes: one sample each
+			}
 			var in []byte
 			if isJSON {
 				txt := applyJSONMut(s.doc, c)
@@ -1219,7 +1392,7 @@ func (d *driver) runMutations(muts []mutCase, vals []*valueT) {
 	sort.Strings(missing)
 	d.res.Stats["formats_without_samples"] = missing
 	d.res.Stats["mutation_jobs"] = len(jobs)
-	results := d.runJobs(jobs, vh.EnvInt("VERIF_C17_WORKERS", 4))
+	results := d.runJobs(jobs, vh.EnvInt("VERIF_C17_WORKERS", 6))
 	for id := 0; id < len(jobs); id++ {
 		r, ok := results[id]
 		if !ok {
@@ -1228,11 +1401,59 @@ func (d *driver) runMutations(muts []mutCase, vals []*valueT) {
 		m := meta[id]
 		e := map[string]any{"event": "mut", "fmt": m["fmt"], "json": m["json"], "op": m["op"], "anchor": m["anchor"], "k": m["k"], "tag": m["tag"],
 			"inlen": m["inlen"], "out": r.Out, "reenc": r.Reenc, "redec": r.Redec, "fix": r.Fix, "identeq": r.IdentEq, "tobin": r.ToBin, "ms": r.Ms,
-			"allocmb": r.AllocMB, "note": r.Note, "input": m["input"]}
+			"allocmb": r.AllocMB, "note": r.Note, "input": m["input"], "sig": mutClass(m["op"].(string), r)}
 		d.tr.Emit(e)
 		d.res.Count([]any{"mut", m["fmt"], m["json"], m["input"]})
 		d.res.Inc("mut_"+r.Out, 1)
 	}
+}
+
+var digits = regexp.MustCompile(`[0-9]+`)
+
+func reasonClass(note string) string {
+	n := strings.ToLower(note)
+	if i := strings.LastIndex(n, "code: "); i >= 0 {
+		n = n[i+6:]
+	}
+	if i := strings.LastIndex(n, ": "); i >= 0 && i < len(n)-10 {
+		n = n[i+2:]
+	}
+	return strings.TrimSpace(digits.ReplaceAllString(n, "N"))
+}
+
+// mutClass is the coarse class of a mutation outcome (part of violation signatures): the kind of panic, the reason of a
+// refusal, the family of the operator.
+func mutClass(op string, r jobResult) string {
+	note := strings.ToLower(r.Note)
+	switch {
+	case r.Out == "panic" || r.Reenc == "panic" || r.Redec == "panic" || r.ToBin == "panic":
+		switch {
+		case strings.Contains(note, "frombytes"):
+			return "stack item: integer longer than 32 bytes"
+		case strings.Contains(note, "makeslice"):
+			return "stack item: count field overflows int"
+		case strings.Contains(note, "map key"):
+			return "stack item: invalid map key"
+		case strings.Contains(note, "too big: integer"):
+			return "stack item: integer beyond 256 bits"
+		case strings.Contains(note, "nil pointer"):
+			return "nil dereference"
+		case strings.Contains(note, "failed to compute hash"), strings.Contains(note, "invalid compiler name"), strings.Contains(note, "does not have signers"):
+			return "value accepted from JSON cannot be encoded"
+		}
+		return "other"
+	case r.Out == "hang" || r.Out == "memory" || r.Out == "crash" || r.AllocMB > 256:
+		return "count field"
+	case r.Out == "value" && r.ToBin != "na" && r.ToBin != "ok":
+		return reasonClass(note)
+	}
+	if strings.HasPrefix(op, "nc-") {
+		return "non-minimal var-int"
+	}
+	if strings.HasPrefix(op, "cnt-") {
+		return "count field"
+	}
+	return op
 }
 
 func isJSONOp(op string) bool {
